@@ -205,7 +205,10 @@ def run(ctx, only=None):
     dis = compare(cases, impl, model) if model is not None else []
     fails = []
     for c, out, exp in zip(cases, impl, expect):
-        if exp is not None and out != exp:
+        if exp is not None and out != exp and c.startswith("recv "):
+            import connlib
+            fails.append(Failure(c, f"a response collected by a receive that was interrupted and called again: {connlib.describe(c)[:300]}\n  frames in order, then the error: {exp[:600]}\n  implementation:                  {out[:600]}", extra={"expect": exp}))
+        elif exp is not None and out != exp:
             fails.append(Failure(c, f"operation sequence {c.split(' ')[2:]} on wire {unhexs(c.split(' ')[1])!r}\n  ordered-multimap spec: {exp[:600]}\n  implementation:        {out[:600]}", extra={"expect": exp}))
     if only is not None:
         for i, c in enumerate(cases):
